@@ -18,6 +18,7 @@ from props.c02 import oracle_ptrace
 from props.c08 import perm_matrix
 from props.c10 import tr
 from props.common import Task, dagger
+from props.npa_quantum import NpaQuantumTask
 from toqito.nonlocal_games.extended_nonlocal_game import ExtendedNonlocalGame
 from toqito.nonlocal_games.quantum_hedging import QuantumHedging
 from toqito.state_opt import optimal_clone
@@ -36,7 +37,10 @@ META = {
                    "unentangled_value (E1): with every entry of pi and of the referee operators symbolic and lambda_max the uninterpreted LAPACK kernel, the result is >= "
                    "lambda_max(Herm(sum pi(x,y) V(f(x),g(y)|x,y))) for ALL pairs of answer functions and equals one of them, game object unchanged; commuting-measurement bound: with answer functions as z3 symbols and a symbolic PSD "
                    "referee state rho, the point K(a,b|x,y) = [f(x)=a][g(y)=b] rho, R = rho (x) v v^T satisfies every constraint the real npa_constraints(referee_dim) "
-                   "generates and the objective equals Tr(P_fg^dagger rho) => unentangled <= NPA_k; the NPA constraints imply the non-signalling assemblage conditions and "
+                   "generates and the objective equals Tr(P_fg^dagger rho) => unentangled <= NPA_k; the same for GENUINELY QUANTUM strategies (one qubit per player, Gaussian-rational rank-one projectors "
+                   "that do not commute between questions, SYMBOLIC shared state rho on A (x) B (x) R with 64 real coordinates): the moment point R[(r,i),(s,j)] = <r|Tr_AB((S_i^* S_j (x) 1) rho)|s> "
+                   "satisfies every equality of the captured program for every rho and the objective is the winning probability computed with plain Kronecker products => every such "
+                   "achieved quantum value <= NPA_k on two games with quantum advantage (real and complex referee projectors); the NPA constraints imply the non-signalling assemblage conditions and "
                    "nonsignaling_value's program is the textbook assemblage program => NPA_k <= NS. Hedging / cloning: primal and dual programs are T1-equal to the textbook "
                    "primal (Tr_sys X = I, X >= 0, <Q,X>) and dual (P (I (x) Y) P^dagger >= Q, Tr Y) with the oracle's own partial trace and permutation matrix, and the dual's "
                    "embedding is proved to be the adjoint of the primal's partial trace (T2: <Xi*(Y),X> = <Y,Xi(X)> for symbolic complex Hermitian X, Y); the cloning operator "
@@ -46,7 +50,7 @@ META = {
                "thorough": "adds NPA level 2 and shape (2,3,2,2) with referee dim 2; cloning with 2 repetitions (512 real coordinates per program)"},
     "trusted_base": ["cvxpy evaluates its own affine expressions (extraction, cross-checked)", "rho (x) v v^T with rho >= 0 is PSD; principal facts about PSD matrices used by the certificates",
                      "strong duality of the hedging / cloning programs (Slater) and the conic solver", "z3 5.1.0"],
-    "outside_claim": ["closed forms 3/4, cos^2(pi/8) (numerical optima; used only as replay oracles)", "see-saw achievability (quantum lower bound <= NPA bound)",
+    "outside_claim": ["closed forms 3/4, cos^2(pi/8) (numerical optima; used only as replay oracles)", "see-saw achievability (the value returned by quantum_value_lower_bound is the solver's; quantum strategy <= NPA bound is decided for the explicit qubit strategies with symbolic state only, not for every strategy of every dimension)",
                       "maximal >= minimal hedging probability and n-repetition consistency as statements about optima"],
     "assumptions": ["instance data dyadic"],
 }
@@ -136,6 +140,18 @@ def ob_unentangled(shape, solver_max=False):
         for x, y in itertools.product(range(X), range(Y)):
             V[0, 0, x % A, (y + 1) % B, x, y] = 1        # only question-dependent answers win
         out.append({"p": np.full((X, Y), 1.0 / (X * Y)), "V": V})
+        # never-asked questions: an all-zero FIRST row / column of the prior in front of a non-zero one
+        Vr = rng.normal(size=(2, 2, A, B, X, Y)) + 1j * rng.normal(size=(2, 2, A, B, X, Y))
+        for x, y, a, b_ in itertools.product(range(X), range(Y), range(A), range(B)):
+            Vr[:, :, a, b_, x, y] = Vr[:, :, a, b_, x, y] @ Vr[:, :, a, b_, x, y].conj().T
+        if X >= 2:
+            p = rng.random((X, Y))
+            p[0, :] = 0
+            out.append({"p": p / p.sum(), "V": Vr})
+        if Y >= 2:
+            p = rng.random((X, Y))
+            p[:, 0] = 0
+            out.append({"p": p / p.sum(), "V": Vr})
         if (A, B, X, Y) == (2, 2, 2, 2):
             # "answers must agree" game (invariant under exchanging the two ANSWERS) on the question pairs (0,1), (1,0) only,
             # scored so that the unique optimum is f = (1, 0), g = (0, 1): not invariant under exchanging the players
@@ -334,12 +350,12 @@ def ref_ext_ns(shape, p, V):
     return ref
 
 
-def ob_ext_product(shape):
+def ob_ext_product(shape, kind="r"):
     A, B, X, Y = shape
-    cfg = {"referee_dim": 2, "shape_A_B_X_Y": list(shape), "reps": 2}
+    cfg = {"referee_dim": 2, "shape_A_B_X_Y": list(shape), "reps": 2, "predicate_entries": "complex" if kind == "c" else "real"}
 
     def build(b):
-        return {"p": b.array("p", (X, Y), "r"), "V": b.array("V", (2, 2, A, B, X, Y), "r")}
+        return {"p": b.array("p", (X, Y), "r"), "V": b.array("V", (2, 2, A, B, X, Y), kind)}
 
     def call(i):
         g = ExtendedNonlocalGame(i["p"], i["V"], reps=2)
@@ -356,7 +372,12 @@ def ob_ext_product(shape):
                     V2[r1 * 2 + r2, s1 * 2 + s2, a1 * A + a2, b1 * B + b2, x1 * X + x2, y1 * Y + y2] = \
                         V[r1, s1, a1, b1, x1, y1] * V[r2, s2, a2, b2, x2, y2]
         return [P2, V2]
-    return Obligation("extended_product_game.two_repetitions_is_kronecker_product_game", cfg, build, call, oracle, objzeros=(ENG,))
+    def witness():
+        rng = np.random.default_rng(17)
+        V = rng.normal(size=(2, 2, A, B, X, Y)) + (1j * rng.normal(size=(2, 2, A, B, X, Y)) if kind == "c" else 0)
+        p = rng.random((X, Y))
+        return [{"p": p / p.sum(), "V": V}]
+    return Obligation("extended_product_game.two_repetitions_is_kronecker_product_game", cfg, build, call, oracle, objzeros=(ENG,), witness=witness)
 
 
 # ---- hedging ------------------------------------------------------------------------------------------
@@ -590,12 +611,12 @@ def ref_clone(n, form):
     return ref
 
 
-def ob_clone_operator(n_states):
-    cfg = {"states": n_states}
+def ob_clone_operator(n_states, flat=False):
+    cfg = {"states": n_states, "state_vectors_given_as": "1-D arrays" if flat else "column arrays"}
     captured = {}
 
     def build(b):
-        return {"s": [b.array(f"s{k}", (2, 1), "c") for k in range(n_states)], "p": [b.real(f"p{k}") for k in range(n_states)]}
+        return {"s": [b.array(f"s{k}", (2,) if flat else (2, 1), "c") for k in range(n_states)], "p": [b.real(f"p{k}") for k in range(n_states)]}
 
     def call(i):
         import sys
@@ -615,7 +636,7 @@ def ob_clone_operator(n_states):
     def oracle(i):
         Q = None
         for s, p in zip(i["s"], i["p"]):
-            s = np.asarray(s)
+            s = np.asarray(s).reshape(-1, 1)
             v = np.kron(np.kron(s, s), s.conj())
             t = p * (v @ dagger(v))
             Q = t if Q is None else Q + t
@@ -727,6 +748,9 @@ def obligations(tier):
         obs.append(ob_unentangled(sh))
     for sh in [(2, 2, 2, 2), (2, 2, 1, 1)] + ([(3, 3, 1, 1), (2, 3, 2, 1)] if T else []):
         obs.append(ob_unentangled(sh, solver_max=True))
+    for variant in ("real", "complex"):
+        for k in [1, "1+ab"] + ([2] if T else []):
+            obs.append(NpaQuantumTask(variant, k))
     for sh in [(2, 2, 2, 2), (2, 2, 1, 2)] + ([(2, 3, 2, 2)] if T else []):
         for k in [1, "1+ab"] + ([2] if T else []):
             obs.append(ExtNpaTask(sh, k, "unent_le_npa"))
@@ -739,6 +763,8 @@ def obligations(tier):
         obs.append(ext_see_saw_task(sh, "bob"))
     obs.append(ob_ext_product((2, 2, 1, 2)))
     obs.append(ob_ext_product((2, 1, 2, 2)))
+    obs.append(ob_ext_product((2, 2, 1, 1), "c"))       # complex referee operators (e.g. BB84 in the Z / Y bases)
+    obs.append(ob_ext_product((1, 2, 2, 1), "c"))
     # hedging
     for n in [1, 2]:
         for cx in (False, True):
@@ -792,4 +818,5 @@ def obligations(tier):
             t.wall_cap_s = 3000
             obs.append(t)
     obs.append(ob_clone_operator(2))
+    obs.append(ob_clone_operator(2, flat=True))      # "states provided as either matrices or vectors"
     return obs
